@@ -4,7 +4,7 @@
    also what is extracted and run against the real C++. *)
 From Coq Require Import ZArith List Bool.
 From MomoCommon Require Import GenPrelude.
-From C17 Require Gen_Leaves Leaves_Proofs SorterSearch Search_Proofs Instance.
+From C17 Require Gen_Leaves Leaves_Proofs SorterSearch Search_Proofs Find_Proofs IsSorted_Proofs Checker Instance.
 Import ListNotations.
 Local Open Scope Z_scope.
 
@@ -53,3 +53,69 @@ Print Assumptions C17_findhash_found_iff.
 Theorem C17_findhash_empty : forall hash qh, Instance.FindHash 0 hash qh = Ok (0, false).
 Proof. exact Instance.FindHash_empty. Qed.
 Print Assumptions C17_findhash_empty.
+
+(* IsSorted / IsSortedPrehashed return exactly the linear-scan predicate -- hash codes non-decreasing and,
+   inside one hash run, equal items contiguous -- for EVERY array and every equivalence equalFunc, reading
+   only indexes in [0,count) (result Ok, never Stuck), including the empty array (nothing is read). *)
+Theorem C17_is_sorted_iff : forall count hash item eqf, 0 <= count -> Instance.equivalence eqf ->
+  exists b, Instance.IsSorted count hash item eqf = Ok b /\
+    (b = true <-> IsSorted_Proofs.sorted_spec count hash item eqf).
+Proof. exact Instance.IsSorted_iff. Qed.
+Print Assumptions C17_is_sorted_iff.
+
+Theorem C17_is_sorted_empty : forall hash item eqf, Instance.IsSorted 0 hash item eqf = Ok true.
+Proof. exact Instance.IsSorted_empty. Qed.
+Print Assumptions C17_is_sorted_empty.
+
+(* Find / FindPrehashed == linear scan, on every array on which IsSorted holds (any count < 2^62, any 64-bit
+   hashes, any equivalence equalFunc whose equal items have equal hash codes): all reads in [0,count)
+   (result Ok), found iff some item equals the searched one, and then the returned index holds one. *)
+Theorem C17_find_eq_linear_scan : forall count hash item eqf qh qx,
+  0 <= count < 2 ^ 62 -> (forall i, 0 <= i < count -> 0 <= hash i < 2 ^ 64) -> 0 <= qh < 2 ^ 64 ->
+  Instance.equivalence eqf -> Instance.hash_consistent count hash item eqf qh qx ->
+  Instance.IsSorted count hash item eqf = Ok true ->
+  exists r b, Instance.Find count hash item eqf qh qx = Ok (r, b) /\ 0 <= r <= count /\
+    (b = true -> r < count /\ eqf (item r) qx = true) /\
+    (b = true <-> exists i, 0 <= i < count /\ eqf (item i) qx = true).
+Proof. exact Instance.Find_eq_linear_scan. Qed.
+Print Assumptions C17_find_eq_linear_scan.
+
+(* GetBounds / GetBoundsPrehashed == linear scan: [b,e) is exactly the set of indexes whose item equals the
+   searched one (empty range when absent). *)
+Theorem C17_bounds_eq_linear_scan : forall count hash item eqf qh qx,
+  0 <= count < 2 ^ 62 -> (forall i, 0 <= i < count -> 0 <= hash i < 2 ^ 64) -> 0 <= qh < 2 ^ 64 ->
+  Instance.equivalence eqf -> Instance.hash_consistent count hash item eqf qh qx ->
+  Instance.IsSorted count hash item eqf = Ok true ->
+  exists b e, Instance.GetBounds count hash item eqf qh qx = Ok (b, e) /\ 0 <= b <= e /\ e <= count /\
+    (forall i, 0 <= i < count -> (b <= i < e <-> eqf (item i) qx = true)).
+Proof. exact Instance.GetBounds_eq_linear_scan. Qed.
+Print Assumptions C17_bounds_eq_linear_scan.
+
+Theorem C17_find_empty : forall hash item eqf qh qx, Instance.Find 0 hash item eqf qh qx = Ok (0, false).
+Proof. exact Instance.Find_empty. Qed.
+Print Assumptions C17_find_empty.
+
+Theorem C17_bounds_empty : forall hash item eqf qh qx, Instance.GetBounds 0 hash item eqf qh qx = Ok (0, 0).
+Proof. exact Instance.GetBounds_empty. Qed.
+Print Assumptions C17_bounds_empty.
+
+(* PARTIAL coverage of Sort: the sort algorithm (RadixSorter + pvGroup) is not modelled.  What is proved is
+   the checker that is run on the REAL output of Sort/SortPrehashed on every run: if it accepts, the output
+   is a permutation of the input (as (hash,item) pairs: the parallel hash array stayed in step) and
+   satisfies the IsSorted predicate. *)
+Theorem C17_sort_output_checker_sound_partial : forall inp out, Instance.check_sort_output inp out = true ->
+  Permutation.Permutation inp out /\
+  IsSorted_Proofs.sorted_spec (Instance.len out) (Instance.hash_of out) (Instance.item_of out) Z.eqb.
+Proof. exact Instance.check_sort_output_sound. Qed.
+Print Assumptions C17_sort_output_checker_sound_partial.
+
+(* non-vacuity: a concrete arrangement with a hash collision satisfies the hypotheses, is found / bounded *)
+Theorem C17_nonvacuous_sorted :
+  Instance.IsSorted (Instance.len Instance.ex_arr) (Instance.hash_of Instance.ex_arr) (Instance.item_of Instance.ex_arr) Z.eqb = Ok true.
+Proof. exact Instance.ex_sorted. Qed.
+Print Assumptions C17_nonvacuous_sorted.
+
+Theorem C17_nonvacuous_find :
+  Instance.Find (Instance.len Instance.ex_arr) (Instance.hash_of Instance.ex_arr) (Instance.item_of Instance.ex_arr) Z.eqb 3 2 = Ok (2, true).
+Proof. exact Instance.ex_find. Qed.
+Print Assumptions C17_nonvacuous_find.
